@@ -16,7 +16,7 @@
 
    Property text -> theorem:
    * "each ranking metric ... returns the value given by its documented definition applied to the
-     first k recommendations"       -> truncate_first_k, first_k_is_positional, hit/precision/recall/recip/rbp/dcg/ndcg/
+     first k recommendations"       -> truncate_first_k, first_k_is_positional, tail_irrelevant(_shared_prefix), hit/precision/recall/recip/rbp/dcg/ndcg/
                                        pop_eq_definition, hit_count_is_intersection_size,
                                        ideal_dcg_is_maximum (the nDCG normaliser is the optimum)
    * "the normalised metrics lie in [0, 1]"                       -> normalised_in_unit_interval
@@ -32,7 +32,7 @@
    for other discounts only the definitional equalities are claimed). *)
 From Coq Require Import ZArith QArith Qabs List Bool.
 From LK Require Import Lib.QLib Lib.RankLib Model.C06_ranking Gen.C06_metrics
-  Proofs.C06_model Proofs.C06_bounds Proofs.C06_ideal Proofs.C06_swap Proofs.C06_main.
+  Proofs.C06_model Proofs.C06_bounds Proofs.C06_ideal Proofs.C06_swap Proofs.C06_main Proofs.C06_tail.
 Import ListNotations.
 Open Scope Q_scope.
 
@@ -158,6 +158,33 @@ Theorem first_k_is_positional :
    rank_cut 4 l = [11; 12]%Z /\ topk (Some 4%nat) (rl_ids l) = [11; 12; 13; 14]%Z).
 Proof. exact first_k_is_positional_l. Qed.
 Print Assumptions first_k_is_positional.
+
+(* "applied to the first k recommendations" also says what must NOT matter: two lists with the same
+   ordered flag and the same first k entries get the same value from every metric, whatever follows
+   position k and however long the lists go on; lists sharing a prefix of at least k entries qualify *)
+Theorem tail_irrelevant : forall k recs recs' t,
+  il_ordered recs = il_ordered recs' -> topk k (il_ids recs) = topk k (il_ids recs') ->
+  hit_measure_list k recs t = hit_measure_list k recs' t /\
+  precision_measure_list k recs t = precision_measure_list k recs' t /\
+  recall_measure_list k recs t = recall_measure_list k recs' t /\
+  exc_eq (recip_measure_list k recs t) (recip_measure_list k recs' t) /\
+  (forall g nrm, exc_eq (rbp_measure_list k g nrm recs t) (rbp_measure_list k g nrm recs' t)) /\
+  (forall disc graded,
+     exc_eq (dcg_measure_list k disc graded recs t) (dcg_measure_list k disc graded recs' t)) /\
+  (forall disc graded,
+     exc_eq (ndcg_measure_list k disc graded recs t) (ndcg_measure_list k disc graded recs' t)) /\
+  (forall counts, pop_measure_list k (pop_item_ranks counts) recs t =
+                  pop_measure_list k (pop_item_ranks counts) recs' t).
+Proof. exact tail_irrelevant_l. Qed.
+Print Assumptions tail_irrelevant.
+
+Theorem tail_irrelevant_shared_prefix : forall n p a b,
+  (n <= length p)%nat ->
+  let recs := {| il_ordered := true; il_ids := p ++ a |} in
+  let recs' := {| il_ordered := true; il_ids := p ++ b |} in
+  il_ordered recs = il_ordered recs' /\ topk (Some n) (il_ids recs) = topk (Some n) (il_ids recs').
+Proof. exact tail_irrelevant_shared_prefix_l. Qed.
+Print Assumptions tail_irrelevant_shared_prefix.
 
 (* the hypothesis on the discount: any non-decreasing discount; the shipped np.log2 as evaluated by
    NumPy at ranks 1..256 (continued by its last value); an item outside the test data has gain 0 *)
